@@ -84,7 +84,7 @@ SELECTORS = [
 ]
 NEEDS_TAGS = {len(SELECTORS) - 2, len(SELECTORS) - 1}
 FAULT_KINDS = ["missing", "empty", "garbage", "dir", "trunc", "readerr", "badjson"]
-MODES = ["stream", "stream-gz", "jsonfile", "split", "jsonl", "json", "csv", "line", "line-verbose", "text", "list", "csvfile", "textfile", "linefile", "stdout-stream"]
+MODES = ["stream", "stream-gz", "jsonfile", "split", "jsonl", "json", "csv", "line", "line-verbose", "text", "list", "csvfile", "textfile", "linefile", "stdout-stream", "split-stdout"]
 
 
 def budget(tier):
@@ -230,7 +230,7 @@ def generate(rng, tier, index):
                 kind = "good"
             have_stdin = True
         sources.append(gen_source(rng, kind, i, tier, only))
-    if mode in ("stream", "stream-gz", "split", "stdout-stream") and not only and rng.random() < 0.35:
+    if mode in ("stream", "stream-gz", "split", "stdout-stream", "split-stdout") and not only and rng.random() < 0.35:
         for s in sources:
             if s["kind"] in ("good", "stdin", "trunc") and s.get("recs"):
                 for r in s["recs"]:
@@ -522,6 +522,8 @@ def execute(plan, keep_log=False):
     with World(keep_log=keep_log) as w:
         w.fs.makedirs("/simfs/in", exist_ok=True)
         w.fs.makedirs("/simfs/out", exist_ok=True)
+        w.fs.makedirs("/simfs/cwd", exist_ok=True)
+        w.sim_cwd = "/simfs/cwd"  # anything rdump opens by a relative name stays inside the simulation
         descs = {k: RecordDescriptor(v[0], [tuple(f) for f in v[1]]) for k, v in sorted(plan["pool"].items())}
         argv_src = []
         per_source = []
@@ -605,6 +607,9 @@ def execute(plan, keep_log=False):
             argv += ["-w", out, "--split", str(opts["split"]), "--suffix-length", str(opts["suffix"])]
         elif mode == "stdout-stream":
             argv += ["-w", "-"]
+        elif mode == "split-stdout":
+            # splitting makes no sense on stdout: everything is one stream there
+            argv += ["-w", "stream://", "--split", str(opts["split"]), "--suffix-length", str(opts["suffix"])]
         elif mode == "jsonl":
             argv += ["-J"]
         elif mode == "json":
@@ -754,7 +759,7 @@ def check_output(w, plan, opts, mode, out, so, expected_records, exact, pred, ad
             judge(None, got, "-w " + mode)
         except Exception as e:  # noqa: BLE001
             judge("%s: %s" % (type(e).__name__, short(str(e), 120)), [], "-w " + mode)
-    elif mode == "stdout-stream":
+    elif mode in ("stdout-stream", "split-stdout"):
         try:
             got = [rec_model(r) for r in RecordReader(fileobj=io.BytesIO(so))] if so else []
             if not so and exp0:
